@@ -37,7 +37,7 @@ def rand_td(rng, family=None):
     def warplen():
         if dy:
             return str(Decimal(rng.randrange(1, 64)) / Decimal(16))
-        return rng.choice(["1", "0.5", "4", "2.25", "0.021", "0.333", "8", "0.3", "0.4", "0.05", "1.1", "0.167", "0.9"])      # short decimals off the tick grid too: the engine snaps the length to the tick
+        return rng.choice(["1", "0.5", "4", "2.25", "0.021", "0.333", "8", "0.3", "0.4", "0.05", "1.1", "0.167", "0.9", "0.015", "0.011", "0.02", "0.005", "0.03"])      # short decimals off the tick grid too: the engine snaps the length to the tick
 
     bb = beats(rng.choice([1, 1, 2, 3, 4]))
     if 0 not in bb:
